@@ -14,7 +14,7 @@ GEN = []
 LEAN = ["Ymq.Props.C19"]
 AUDIT = "Ymq.Audit.C19"
 THEOREMS = ["Ymq.C19." + t for t in (
-    "crt_symmetric crt_sparse_symmetric perm_sign snf_ops_unimodular_partial snf_diag").split()]
+    "crt_symmetric crt_sparse_symmetric perm_sign snf_ops_unimodular_partial snf_diag snf_reduce_cols_iso_partial").split()]
 HYPOTHESES = ["inv_mod64_spec = Ymq.IntMat.InvSpec (theorems crt_symmetric, crt_sparse_symmetric): arith::inv_mod64(a, p) returns Some(i) with "
               "i < p and a*i = 1 (mod p) whenever p > 1 and gcd(a, p) = 1 (property C08); the driver instantiates it with the C08 model invMod64"]
 PROFILES = ["release", "chk"]
@@ -1654,7 +1654,8 @@ CLAIM = ("Lean theorems, for all inputs, about executable models of intdense.rs:
          "swap count of the cycle walk in GFpEchelonBuilder::det has the parity of the permutation, Equiv.Perm.sign), snf_ops_unimodular_partial "
          "(normalize, submul_n, eliminate, colsub, colswap act on the relation module (Z/h)^n-rowspace by invertible Z/h-linear maps: row operations keep "
          "it, column operations map it and q by the same automorphism; i128 path 0 < h < 2^63), snf_diag (a state returned by reduce is diagonal and "
-         "its diagonal multiplies to h). The models (also of the Montgomery-form echelon builder, det_matz, CRTDetBuilder with its shared echelons, the "
+         "its diagonal multiplies to h), snf_reduce_cols_iso_partial (the whole column phase reduce_cols is one automorphism phi of (Z/h)^n: relation "
+         "module of the output = phi-image of the input's, q = matrix of phi, quotient groups isomorphic; same path). The models (also of the Montgomery-form echelon builder, det_matz, CRTDetBuilder with its shared echelons, the "
          "lattice-index candidate selection and the whole SmithNormalForm reduction incl. the I256 path) are tied to the code by differential runs in both "
          "build profiles; a Python exact-integer oracle (Bareiss determinant, diagonalisation modulo the determinant, gcd of minors) judges every "
          "implementation answer: determinants with sign, dense/sparse agreement, lattice index inside the bracket, diagonal presentation with product = "
@@ -1663,8 +1664,9 @@ LEVEL_NOTE = ("Partial by design: the floating-point estimate windows of compute
               "Wiedemann/Berlekamp-Massey code of intsparse.rs have no Lean model (oracle only); snf_ops_unimodular is proved as _partial for the i128 "
               "arithmetic path (h < 2^63, one source row): the I256 path and the 8-row block of eliminate_block need the correctness of the reciprocal "
               "reduction modh256, which is compared with the code and oracle-checked but not proved; echelon_det (determinant mod p = sign * product of "
-              "pivots for GFpEchelonBuilder::add/det) and the composition of the operation theorems over the loops of reduce_rows/reduce_cols are not "
-              "proved (the echelon builder and the reduce loops are covered by K and by the oracle only). Integer determinants are not invariants of the "
+              "pivots for GFpEchelonBuilder::add/det) and the composition of the operation theorems over the loops of reduce_rows (which also discards "
+              "relations and generators) are not proved (covered by K and by the oracle only); the column phase reduce_cols is composed "
+              "(snf_reduce_cols_iso_partial). Integer determinants are not invariants of the "
               "Smith-form operations because every step reduces modulo h; the proved invariant is the relation module modulo h. Five algorithmic "
               "limitations of the code are listed as known findings (refusals and false zeros, see known_findings.json); 9 defects were repaired by "
               "fix: commits and the models follow the repaired code. Trusted: Lean kernel (+propext, Classical.choice, Quot.sound), the hand-written "
